@@ -464,6 +464,22 @@ def gen_missing_args(rng):
     return (prog + use) if rng.random() < 0.5 else (use + prog)
 
 
+def gen_many_expansions(rng, k=None):
+    """ONE macro with a local label (used forward and backward) expanded k times (k in the hundreds / thousands) in one
+    scope, directly and through a wrapper that expands it twice: every expansion must get label names of its own — with
+    real 64-bit random suffixes a collision is out of the question (< 2^-40), a narrower or shared suffix shows up here"""
+    k = k or rng.choice([1000, 1500, 2000])
+    prog = [("mdef", "spin", [], [("label", "top"), ("op", "jumpdest"), ("push", 2, X(rng, ["top"])), ("push", 2, X(rng, ["done"])),
+                                  ("op", "pop"), ("label", "done"), ("op", "jumpdest")]),
+            ("mdef", "two", [], [("minv", "spin", []), ("op", "pc"), ("minv", "spin", [])])]
+    body = []
+    for i in range(k):
+        body.append(("minv", "spin", []) if i % 3 else ("minv", "two", []))
+        if i % 97 == 0:
+            body.append(("op", "gas"))
+    return prog + body
+
+
 def gen_macros(rng):
     """instruction macros: parameters, local labels in compound expressions, forwarding through nested
     invocations, local label as argument, clashes between local / outer / argument names, definition after use"""
@@ -506,6 +522,11 @@ def gen_macros(rng):
         else:
             args.append(X(rng, [lit(rng, rng.randrange(0, 200))]))
     obody.append(("minv", "inner", args))
+    if rng.random() < 0.4:
+        # the SAME label-bearing macro expanded twice inside ONE invocation of the outer macro (and the outer macro may be
+        # invoked several times): every expansion needs names of its own, also the nested ones
+        obody.append(("op", "gas"))
+        obody.append(("minv", "inner", args))
     if use_ef and outer_params and rng.random() < 0.6:
         obody.append(("push", 3, X(rng, ["ef", "(", "$" + outer_params[0], ")"])))
     for p in outer_params:
